@@ -17,6 +17,10 @@ subnormals, overflow), spec/Limb64.tla.
                 nothing; PADDING pads exactly multi-byte objects at odd addresses; data mixed with `?` is an error; the lazy
                 table lookup = the table function; every copy of a repeated string is the string translated exactly once;
                 a statement assembled on both sides of CHARSET statements shows both tables.
+    Single-quoted strings of EVERY length 0..9 ('', 'A', 'Ab', ... 'Abcdefghi') as argument of every statement kind: one integer up
+    to min(4, w) characters, one element per character beyond w; for 5..8 characters in a 64-bit element (DQ, DC.Q) and for ''
+    the manual leaves two readings (DataDef.tla Readings / LayoutAlts: one 8-character integer | character string; error | nothing):
+    TLC prints both layouts (o.k = "alt"), the statement is assembled alone and must show one of them (law MultiCharReadings).
 (G) every DataDef_MC case (statement x argument list x modes, expected layout printed by TLC) is rendered for
     68000 and 6809 (DC.x, big endian, PADDING on/off, odd/even start; code kept in words resp. bytes), z80 and 8051 (Dx, BIGENDIAN off/on), 6809 (FCB/FDB/FCC),
     6502 (BYT/ADR), 320C25 (BYTE/WORD/LONG, 16-bit granular) and atmega128 (packed DB/DN, DATA; DN also on the z80), one `org` slot per case followed by a marker byte; the
@@ -25,12 +29,15 @@ subnormals, overflow), spec/Limb64.tla.
     representable decimal literals) so that the host's decimal conversion is not in the loop.  Cases TLC evaluates to
     "error" must produce an error on their line and no bytes.
 Verdict-bearing: bytes, error/no error, address advance.  NOT covered: decimal->binary conversion of float literals,
-    DC.P (packed decimal), VAX/IBM float formats (vaxfloat.c, ibmfloat.c), PIC `DATA`, TI float formats, strings in float statements, empty strings, the 1 KByte per line limit.
+    DC.P (packed decimal), VAX/IBM float formats (vaxfloat.c, ibmfloat.c), PIC `DATA`, TI float formats, strings in float statements, empty double-quoted strings, the 1 KByte per line limit.
 
 Known findings of the pinned tree (known_findings/C09.json, one proposed fix each): half precision subnormals truncated,
     string characters above 127 sign-extended in DW/DD/DQ/ADR/FDB, 0.0 in extended precision written with exponent 3C00h
     (two golden files pin that byte, the fix patches them), LONG of the TMS320C2x not range-checked (a golden test contains
-    the typo the missing check hid), DC.C on 68xx targets takes its high byte from an uninitialised word.
+    the typo the missing check hid), DC.C on 68xx targets takes its high byte from an uninitialised word; single-quoted strings
+    of 5..8 characters in DQ / DC.Q and '' anywhere are written from a destroyed operand (`dq 'ABCDE'` = 05 00 .., `db ''` = 00:
+    asmpars.c MultiCharToInt ignores that TempResultToInt failed; C09-multichar-constant-longer-than-4, found when the
+    length 0..9 dimension was added; with the fix on a copy: 201/201 golden tests, 0 violations).
 
 Mutations of the real code tried (fresh copy of /repo, VERIF_REPO, ./check C09 --tier quick):
     * motpseudo.c EnterWord: bytes swapped in the ListGran()==1 branch  -> MISSED by the first version (the 68000 keeps code in
@@ -220,9 +227,8 @@ def make_item(idx, case, tgt):
     return it
 
 
-def expected_image(it, tgt):
-    """list of (byte address, value) the statement must lay down + the marker; None = nothing decided"""
-    o = it.case["o"]
+def expected_image(it, tgt, o):
+    """list of (byte address, value) layout o lays down + the marker; None = nothing decided"""
     if o["k"] == "data":
         start = it.slot + o["pad"]
         cells = [(start + i, b) for i, b in enumerate(o["b"])]
@@ -271,24 +277,62 @@ def judge_data_batch(rep, bld, tgt, items, depth=0):
         judge_data_batch(rep, bld, tgt, items[:mid], depth + 1)
         judge_data_batch(rep, bld, tgt, items[mid:], depth + 1)
         return
-    img = res.parsed().image()
-    flat = {}
-    for (seg, a), vals in img.items():
-        flat.setdefault(a, vals[0])
+    flat = flat_image(res)
     for n, it in enumerate(items):
-        cells, mark, (start, end) = expected_image(it, tgt)
-        lo, hi = tgt.slot_of(n, it) - 1, tgt.slot_of(n, it) - 1 + STRIDE
-        got = {a: v for a, v in flat.items() if lo <= a < hi}
-        want = dict(cells + mark)
-        # pad bytes in front of the data may or may not be written; everything else must match exactly
-        extra = {a: v for a, v in got.items() if a not in want and not (it.slot <= a < start)}
-        wrong = {a: (want[a], got.get(a)) for a in want if got.get(a) != want[a]}
-        if wrong or extra:
-            data_wrong = any(a < end for a in wrong) or any(a < end for a in extra)
+        bad = compare_slot(it, tgt, flat, n, it.case["o"])
+        if bad:
+            data_wrong, start, end, got = bad
             base.report(rep, "wrong layout" if data_wrong else "wrong address advance", it, tgt, src,
                         "value" if data_wrong else "advance",
                         extra="expected %s at %#x..%#x + marker at %#x; code file has %s"
                               % (it.case["o"], start, end, end, sorted(got.items())))
+
+
+def flat_image(res):
+    flat = {}
+    for (seg, a), vals in res.parsed().image().items():
+        flat.setdefault(a, vals[0])
+    return flat
+
+
+def compare_slot(it, tgt, flat, n, o):
+    """None if slot n of the code file shows layout o (+ the marker), else (data_wrong, start, end, bytes found)"""
+    cells, mark, (start, end) = expected_image(it, tgt, o)
+    lo, hi = tgt.slot_of(n, it) - 1, tgt.slot_of(n, it) - 1 + STRIDE
+    got = {a: v for a, v in flat.items() if lo <= a < hi}
+    want = dict(cells + mark)
+    # pad bytes in front of the data may or may not be written; everything else must match exactly
+    extra = {a: v for a, v in got.items() if a not in want and not (it.slot <= a < start)}
+    wrong = {a: (want[a], got.get(a)) for a in want if got.get(a) != want[a]}
+    if not (wrong or extra):
+        return None
+    return (any(a < end for a in wrong) or any(a < end for a in extra), start, end, got)
+
+
+def judge_alternatives(rep, bld, tgt, it):
+    """a statement for which the manual allows several layouts (TLC printed all of them, each `data` or `error`): assembled
+    alone; it conforms iff what asl did is one of them"""
+    alts = it.case["o"]["alts"]
+    src = tgt.render([it])
+    res = aslrun.assemble(bld, {"a.asm": src}, opts=["-q"], timeout=20)
+    if er.crashed(res):
+        base.report(rep, "assembler crashed (rc=%s sig=%s timeout=%s) on" % (res.rc, res.sig, res.timeout), it, tgt, src, "crash")
+        return
+    errs = er.error_lines(res)
+    if any(l in errs for l in range(it.first, it.line + 1)):
+        if not any(a["k"] == "error" for a in alts):
+            base.report(rep, "bytes are documented but an error is reported for", it, tgt, src, "error")
+        return
+    if res.rc != 0 or res.p is None:
+        base.report(rep, "no code and no error message (rc=%s) for" % res.rc, it, tgt, src, "silent")
+        return
+    flat = flat_image(res)
+    data = [a for a in alts if a["k"] in ("data", "reserve")]
+    bads = [compare_slot(it, tgt, flat, 0, a) for a in data]
+    if not data or all(bads):
+        got = sorted((bads[0][3] if bads else {a: v for a, v in flat.items() if a >= it.slot - 1}).items())
+        base.report(rep, "wrong layout: none of the documented readings", it, tgt, src, "value",
+                    extra="expected one of %s at %#x (+ marker); code file has %s" % (alts, it.slot, got))
 
 
 def replay_cases(rep, bld, cases, tier):
@@ -301,14 +345,14 @@ def replay_cases(rep, bld, cases, tier):
     n = 0
     for gk, cs in sorted(groups.items(), key=lambda kv: str(kv[0])):
         tgt = make_target(gk[0], cs[0]["md"])
-        by = {"data": [], "error": [], "unspec": []}
+        by = {"data": [], "error": [], "unspec": [], "alt": []}
         for c in cs:
             n += 1
             it = make_item(n, c, tgt)
             k = c["o"]["k"]
             by["data" if k in ("data", "reserve") else k].append(it)
         for kind, items in by.items():
-            for ch in base.chunks(items, 100):
+            for ch in base.chunks(items, 1 if kind == "alt" else 100):
                 work.append((kind, tgt, ch))
 
     def do(w):
@@ -317,6 +361,8 @@ def replay_cases(rep, bld, cases, tier):
             judge_data_batch(rep, bld, tgt, ch)
         elif kind == "error":
             base.judge_error_batch(rep, bld, tgt, ch)
+        elif kind == "alt":
+            judge_alternatives(rep, bld, tgt, ch[0])
         else:
             base.judge_survival(rep, bld, tgt, ch, "statement without documented layout")
         return len(ch)
